@@ -599,13 +599,15 @@ class HealSparseMap(object):
             elif self._sparse_map.dtype.type != _values.dtype.type:
                 raise ValueError("Data-type mismatch between sparse_map and values")
 
-        if operation == 'replace':
+        is_pixel_ranges = (getattr(pixels, "ndim", 0) == 2 and pixels.shape[1] == 2)
+
+        if operation == 'replace' and not is_pixel_ranges:
             # Check for unique pixel positions
             if hasattr(pixels, "__len__"):
                 if len(np.unique(pixels)) < len(pixels):
                     raise ValueError("List of pixels must be unique if operation='replace'")
 
-        if pixels.ndim == 2 and pixels.shape[1] == 2:
+        if is_pixel_ranges:
             # These are pixel ranges.
             if not is_single_value:
                 raise ValueError("Can only use a single value with pixel ranges (N, 2) input.")
